@@ -5,6 +5,8 @@ CONSTANTS
   ArgSets <- ArgSetsDup
   HdrPorts <- Ports16
   HdrChans <- Chans4
+  Links <- LinksNow
+  Cap = 1
   Chained = FALSE
   Bug = "mask_add"
 INVARIANT EmissionsOK
